@@ -14,8 +14,9 @@ What is new here (everything else on the analysis path is modelled in `Edit`, `N
   (`(len - 1) as u16`), `fill_top_path`, `node`;
 * `analysis/stateful_tokenizer.rs`: `resolve_best_path` (`to_curr_byte_idx`, `as u16`), the stages of
   `do_tokenize` in their order with `?` propagation;
-* `analysis/node.rs`: `NodeSplitIterator::next` (`byte_start + head_word_length`, `ch_idx(byte_end)`
-  indexes `mod_b2c`, `as u16`);
+* `analysis/node.rs`: `NodeSplitIterator::next` in two variants (`SplitV`): `cur` = before the repair of D6
+  (`byte_start + head_word_length`, `ch_idx(byte_end)` indexes `mod_b2c`, `as u16`), `d6fix` = the code that
+  exists now (clamp to the parent's byte end, `mod_b2c`, then `mod_c2b`);
 * `analysis/morpheme.rs`: `begin/end/begin_c/end_c/surface` with the `debug_assert!`s and the slice
   panics of `&original[a..b]`.
 
@@ -183,29 +184,57 @@ def mapM {α β : Type} (f : α → Outcome β) : List α → Outcome (List β)
 
 /-! ## `NodeSplitIterator::next` -/
 
+/-- which `NodeSplitIterator::next` is modelled: `cur` = the code before the commit
+`fix: keep split units inside their parent token` (kept verbatim: it is the witness of D6),
+`d6fix` = the code that exists now (the unit end is clamped to the parent's byte end and snapped back to
+the start of a character).  The harness selects the variant by probing `analysis/node.rs`. -/
+inductive SplitV where
+  | cur | d6fix
+deriving Repr, DecidableEq
+
+/-- end of a non-last unit, `(char_end as u16, byte_end as u16)`; `bs` = `byte_offset`, `h` =
+`head_word_length` of the unit, `byteEnd` = the parent's byte end.
+* `cur`:   `byte_end = byte_start + head_word_length; char_end = self.text.ch_idx(byte_end)` (= `mod_b2c[byte_end]`);
+* `d6fix`: `byte_end = (byte_start + head_word_length).min(self.byte_end); char_end = self.text.ch_idx(byte_end);
+            byte_end = self.text.to_curr_byte_idx(char_end)` (= `mod_c2b[char_end]`). -/
+def unitEnd (v : SplitV) (b2c c2b : List Nat) (byteEnd bs h : Nat) : Outcome (Nat × Nat) :=
+  match v with
+  | .cur =>
+    match b2c[bs + h]? with            -- `self.text.ch_idx(byte_end)` = `mod_b2c[byte_end]`
+    | none => .panic "index"
+    | some ce => .ok (asU16 ce, asU16 (bs + h))
+  | .d6fix =>
+    match b2c[min (bs + h) byteEnd]? with
+    | none => .panic "index"
+    | some ce =>
+      match c2b[ce]? with              -- `to_curr_byte_idx(char_end)` = `mod_c2b[char_end]`
+      | none => .panic "index"
+      | some be => .ok (asU16 ce, asU16 be)
+
 /-- the units of one split, given by the `head_word_length` (bytes) of each unit's word info;
 `cs`/`bs` = `char_offset`/`byte_offset` -/
-def splitGo (b2c : List Nat) (charEnd byteEnd : Nat) : List Nat → Nat → Nat → Outcome (List NodeRange)
+def splitGo (v : SplitV) (b2c c2b : List Nat) (charEnd byteEnd : Nat) : List Nat → Nat → Nat → Outcome (List NodeRange)
   | [], _, _ => .ok []
   | [_], cs, bs => .ok [⟨cs, charEnd, bs, byteEnd⟩]
   | h :: u :: rest, cs, bs =>
-    match b2c[bs + h]? with            -- `self.text.ch_idx(byte_end)` = `mod_b2c[byte_end]`
-    | none => .panic "index"
-    | some ce =>
-      match splitGo b2c charEnd byteEnd (u :: rest) (asU16 ce) (asU16 (bs + h)) with
-      | .ok l => .ok (⟨cs, asU16 ce, bs, asU16 (bs + h)⟩ :: l)
+    match unitEnd v b2c c2b byteEnd bs h with
+    | .err k => .err k
+    | .panic w => .panic w
+    | .ok (ce, be) =>
+      match splitGo v b2c c2b charEnd byteEnd (u :: rest) ce be with
+      | .ok l => .ok (⟨cs, ce, bs, be⟩ :: l)
       | .err k => .err k
       | .panic w => .panic w
 
 /-- `ResultNode::split` + the iterator, for a node with the given unit lengths -/
-def split (b2c : List Nat) (n : NodeRange) (units : List Nat) : Outcome (List NodeRange) :=
-  splitGo b2c n.ec n.eb units n.bc n.bb
+def split (v : SplitV) (b2c c2b : List Nat) (n : NodeRange) (units : List Nat) : Outcome (List NodeRange) :=
+  splitGo v b2c c2b n.ec n.eb units n.bc n.bb
 
 /-- `split_path`: nodes with at most one unit are kept -/
-def splitPath (b2c : List Nat) : List (NodeRange × List Nat) → Outcome (List NodeRange)
+def splitPath (v : SplitV) (b2c c2b : List Nat) : List (NodeRange × List Nat) → Outcome (List NodeRange)
   | [] => .ok []
   | (n, units) :: rest =>
-    match (if units.length ≤ 1 then .ok [n] else split b2c n units), splitPath b2c rest with
+    match (if units.length ≤ 1 then .ok [n] else split v b2c c2b n units), splitPath v b2c c2b rest with
     | .ok a, .ok b => .ok (a ++ b)
     | .panic w, _ => .panic w
     | .err k, _ => .err k
@@ -285,8 +314,8 @@ structure Result where
   tables : List (EditM.P Nat)
   morphs : List NodeRange
 
-/-- `StatefulTokenizer::do_tokenize` -/
-def tokenize (cfg : Cfg) (orig : List Nat) : Outcome Result :=
+/-- `StatefulTokenizer::do_tokenize`; `v` = which `NodeSplitIterator::next` the tree has -/
+def tokenize (v : SplitV) (cfg : Cfg) (orig : List Nat) : Outcome Result :=
   match EditM.startBuild orig with
   | none => .err "TooLong"
   | some l0 =>
@@ -324,7 +353,7 @@ def tokenize (cfg : Cfg) (orig : List Nat) : Outcome Result :=
                   | .err k => .err k
                   | .panic w => .panic w
                   | .ok path' =>
-                    match splitPath (EditM.b2c text) path' with
+                    match splitPath v (EditM.b2c text) (EditM.c2b text) path' with
                     | .err k => .err k
                     | .panic w => .panic w
                     | .ok ms => .ok ⟨l, ms⟩
@@ -473,14 +502,15 @@ def parseSplitNode (s : List Char) : Option (NodeRange × List Nat × List Nat) 
     | _, _, _, _, _, _ => none
   | _ => none
 
-def showSplit (orig : List Nat) (l : List (EditM.P Nat)) (b2c : List Nat) (n : NodeRange) (units : List Nat) : String :=
+def showSplit (v : SplitV) (orig : List Nat) (l : List (EditM.P Nat)) (b2c c2b : List Nat) (n : NodeRange) (units : List Nat) : String :=
   if units.isEmpty then "-" else
-  match split b2c n units with
+  match split v b2c c2b n units with
   | .ok subs => Wire.joinWith "+" (subs.map (fun s => showAccess (access orig l s)))
   | .err _ => "E"
   | .panic _ => "P"
 
-/-- `C03 access orig=<hex> cur=<hex> m2o=<list> nodes=<bc:ec:bb:eb:unitsA:unitsB;…>`
+/-- `C03 access orig=<hex> cur=<hex> m2o=<list> nodes=<bc:ec:bb:eb:unitsA:unitsB;…> split=<cur|d6fix>`
+(`split` = which `NodeSplitIterator::next` the linked tree has, probed by the harness; absent = `cur`)
 answer: per morpheme `begin:end:begin_c:end_c:surface range|P` `/` A-split results `/` B-split results -/
 def handleAccess (toks : List (List Char)) : String :=
   match Wire.kv? toks "orig", Wire.kv? toks "cur", Wire.kv? toks "m2o", Wire.kv? toks "nodes" with
@@ -489,8 +519,10 @@ def handleAccess (toks : List (List Char)) : String :=
     | some orig, some cur, some m2o, some nodes =>
       let l := EditM.pairUp cur m2o
       let b2c := EditM.b2c cur
+      let c2b := EditM.c2b cur
+      let v : SplitV := if Wire.kv? toks "split" == some "d6fix".toList then .d6fix else .cur
       "ok " ++ Wire.joinWith ";" (nodes.map (fun (n, ua, ub) =>
-        showAccess (access orig l n) ++ "/" ++ showSplit orig l b2c n ua ++ "/" ++ showSplit orig l b2c n ub))
+        showAccess (access orig l n) ++ "/" ++ showSplit v orig l b2c c2b n ua ++ "/" ++ showSplit v orig l b2c c2b n ub))
     | _, _, _, _ => "bad-op"
   | _, _, _, _ => "bad-op"
 
